@@ -326,7 +326,12 @@ func checkC11History(c C11Case) (vs []*Violation) {
 			var rpan interface{}
 			func() {
 				defer func() { rpan = recover() }()
-				if err := ct.Remove(s.ws); err != nil {
+				wasRegistered := false
+				for _, o := range order {
+					wasRegistered = wasRegistered || o == "s"+strconv.Itoa(op.Svc)
+				}
+				// (what Remove returns for a WebService that is not registered is nobody's statement)
+				if err := ct.Remove(s.ws); err != nil && wasRegistered {
 					vs = append(vs, viol("", "%s: Remove returned %v", where, err))
 				}
 			}()
